@@ -44,10 +44,42 @@ use serde::{Deserialize, Serialize};
 /// [`ControlChange14BitMessageScanner`]: struct.ControlChange14BitMessageScanner.html
 #[derive(Copy, Clone, Eq, PartialEq, Hash, Debug)]
 #[cfg_attr(feature = "serde", derive(Serialize, Deserialize))]
+#[cfg_attr(feature = "serde", serde(try_from = "UncheckedControlChange14BitMessage"))]
 pub struct ControlChange14BitMessage {
     channel: Channel,
     msb_controller_number: ControllerNumber,
     value: U14,
+}
+
+/// Mirror of [`ControlChange14BitMessage`] which is used as intermediate step when deserializing,
+/// so the same invariants are enforced as in [`ControlChange14BitMessage::new`].
+#[cfg(feature = "serde")]
+#[derive(Deserialize)]
+#[serde(rename = "ControlChange14BitMessage")]
+struct UncheckedControlChange14BitMessage {
+    channel: Channel,
+    msb_controller_number: ControllerNumber,
+    value: U14,
+}
+
+#[cfg(feature = "serde")]
+impl core::convert::TryFrom<UncheckedControlChange14BitMessage> for ControlChange14BitMessage {
+    type Error = &'static str;
+
+    fn try_from(msg: UncheckedControlChange14BitMessage) -> Result<Self, Self::Error> {
+        if msg
+            .msb_controller_number
+            .corresponding_14_bit_lsb_controller_number()
+            .is_none()
+        {
+            return Err("controller number can't be used for a 14-bit Control Change message");
+        }
+        Ok(ControlChange14BitMessage {
+            channel: msg.channel,
+            msb_controller_number: msg.msb_controller_number,
+            value: msg.value,
+        })
+    }
 }
 
 impl ControlChange14BitMessage {
